@@ -221,11 +221,8 @@ def check(ctx):
                 ctx.fail(fs.fn, st.stmt, f"{st.kind}: {st.why}", construct=f"{st.kind}: {norm_stmt(st.stmt)[:80]}")
         elif st.kind == "other":
             ctx.fail(fs.fn, st.stmt, st.why, construct="filter result recomputed: " + norm_stmt(st.stmt)[:80])
-    if "BOX" not in fs.result_tags():
-        cfg = cfg_of(fs.fn)
-        box = [s for s in fs.stages if s.kind in ("box-clamp", "box-drop")]
-        heads = {cfg.node_of(b_.stmt).id for b_ in box}
-        if not box or cfg.can_reach(cfg.entry.id, cfg.node_of(fs.ret).id, avoiding=heads):
+    if "BOX" not in fs.path_tags():
+        if not any(x.kind in ("box-clamp", "box-drop", "other") and not x.ok for x in fs.stages):
             ctx.fail(fs.fn, fs.fn.node, "a path through the candidate filter returns rows that never passed a box stage", construct="filter path without box stage")
     else:
         ctx.ok(fs.fn, fs.ret, "every path: box stage, then row selections only")
@@ -383,54 +380,54 @@ def check(ctx):
             ctx.check(okh, m, s, f"self.{attr} <- transformer's internal {src}", f"BADS' internal hard bound self.{attr} is not the transformer's internal bound", construct=f"self.{attr} <- {canon(v)[:50]}")
 
     # ------------------------------------------------------------------ R5
-    ctx.rule("R5", "search bounds are rounded inward (two sibling implementations, cross-checked)", floor=4)
-    sigs = {}
-    for fn in (R.init_optim_state, prog.try_function("_update_search_bounds_", "BADS")):
-        if fn is None:
-            continue
-        sites = _inward_sites(prog, fn)
-        got = set()
-        for site in sites:
-            v, b, t, rel, sign, stmt, grid_t = site
-            role = None
-            cb = canon(b)
-            defs = reaching_assignments(prog, fn, b.id, stmt) if isinstance(b, ast.Name) else []
-            cbs = {cb} | {canon(d) for d in defs}
-            if cbs & {"self.lower_bounds", "OS[lb]"}:
-                role = "lower"
-            elif cbs & {"self.upper_bounds", "OS[ub]"}:
-                role = "upper"
-            if role is None:
-                continue  # start point nudge etc.: diagnostic only
-            want = ("<", "+") if role == "lower" else (">", "-")
-            tdefs = {canon(t)} | ({canon(x) for x in reaching_assignments(prog, fn, t.id, stmt)} if isinstance(t, ast.Name) else set())
-            gdefs = {grid_t} | ({canon(x) for x in reaching_assignments(prog, fn, grid_t, stmt)} if grid_t and grid_t.isidentifier() else set())
-            same_t = grid_t is None or bool(tdefs & gdefs)
-            if (rel, sign) == want and same_t:
-                ctx.ok(fn, stmt, f"{role} search bound: v[v {rel} bound] {sign}= mesh")
-            else:
-                ctx.fail(fn, stmt, f"{role} search bound is not rounded inward: mask 'v {rel} bound' with correction '{sign} mesh' (expected {want}); candidates projected onto it can leave the hard box",
-                         construct=f"{role} search bound rounding ({rel},{sign})")
-            got.add((role, rel, sign))
-        sigs[fn.short] = got
-        for role in ("lower", "upper"):
-            if not any(g[0] == role for g in got):
-                ctx.fail(fn, fn.node, f"no inward correction of the grid-rounded {role} search bound in {fn.short}: rounding to the grid can move it outside the hard box", construct=f"<missing inward rounding of {role} search bound>")
-    if len(sigs) == 2:
-        a, b_ = list(sigs.values())
-        ctx.check(a == b_, R.init_optim_state, R.init_optim_state.node, "sibling implementations agree", f"the two implementations of the search-bound rounding disagree: {sigs}", construct="search-bound siblings disagree")
-    # who may write the search bounds
-    for key in ("lb_search", "ub_search"):
-        from .common import key_stores
+    ctx.rule("R5", "every value stored as a search bound is a hard bound rounded to the search grid and corrected inward", floor=4)
+    from .common import key_stores
 
-        for fn, t, v, s, k in key_stores(prog, "OS", key):
-            okw = False
+    HARD = {"lb_search": ({"self.lower_bounds", "OS[lb]"}, ("<", "+"), "lower"), "ub_search": ({"self.upper_bounds", "OS[ub]"}, (">", "-"), "upper")}
+    impls = set()
+    for key, (hard, want, role) in HARD.items():
+        stores = list(key_stores(prog, "OS", key))
+        if not stores:
+            ctx.missing(R.init_optim_state, f"store of optim_state['{key}']")
+        for fn, t, v, st, k in stores:
+            # producer of the stored value: a local of fn, or the i-th element a package function returns
+            prod_fn, prod_name, argmap = fn, None, {}
             if isinstance(v, ast.Name):
-                okw = any(site[0] == v.id for site in _inward_sites(prog, fn))
+                prod_name = v.id
             elif isinstance(v, ast.Call):
                 tg = [x for x in prog.resolve_call(fn, v) if isinstance(x, FunctionInfo)]
-                okw = bool(tg) and all(_inward_sites(prog, x) for x in tg)
-            ctx.check(okw, fn, s, f"OS[{key}] <- inward-rounded bound", f"optim_state['{key}'] is written from something that is not an inward-rounded hard bound", construct=f"OS[{key}] <- {canon(v)[:50]}")
+                if len(tg) == 1:
+                    prod_fn = tg[0]
+                    argmap = {p: a_ for p, a_ in bind_args(prod_fn, v).items()}
+                    rets = [n for n in ast.walk(prod_fn.node) if isinstance(n, ast.Return) and n.value is not None]
+                    idx = int(k[7:-1]) if k.startswith("assign[") else None
+                    for r_ in rets:
+                        e = r_.value.elts[idx] if idx is not None and isinstance(r_.value, ast.Tuple) and idx < len(r_.value.elts) else (r_.value if idx is None else None)
+                        if isinstance(e, ast.Name):
+                            prod_name = e.id
+            sites = [x for x in _inward_sites(prog, prod_fn) if x[0] == prod_name] if prod_name else []
+            if not sites:
+                ctx.fail(fn, st, f"optim_state['{key}'] is written from something that is not an inward-rounded hard bound", construct=f"OS[{key}] <- {canon(v)[:50]}")
+                continue
+            impls.add(prod_fn.short)
+            for var, b, tt, rel, sign, stmt, grid_t in sites:
+                # the bound the mask compares with: through locals of the producer and through its parameters
+                cands = {canon(b)} | ({canon(d) for d in reaching_assignments(prog, prod_fn, b.id, stmt)} if isinstance(b, ast.Name) else set())
+                if isinstance(b, ast.Name) and b.id in argmap:
+                    a_ = argmap[b.id]
+                    cands |= {canon(a_)} | ({canon(d) for d in reaching_assignments(prog, fn, a_.id, st)} if isinstance(a_, ast.Name) else set())
+                okb = bool(cands & hard)
+                tdefs = {canon(tt)} | ({canon(x) for x in reaching_assignments(prog, prod_fn, tt.id, stmt)} if isinstance(tt, ast.Name) else set())
+                gdefs = {grid_t} | ({canon(x) for x in reaching_assignments(prog, prod_fn, grid_t, stmt)} if grid_t and grid_t.isidentifier() else set())
+                same_t = grid_t is None or bool(tdefs & gdefs)
+                if not okb:
+                    ctx.fail(prod_fn, stmt, f"the {role} search bound is corrected against '{canon(b)}' (= {sorted(cands)[:3]}), which is not the hard {role} bound", construct=f"{role} search bound compared with {canon(b)[:40]}")
+                elif (rel, sign) == want and same_t:
+                    ctx.ok(prod_fn, stmt, f"{role} search bound: v[v {rel} bound] {sign}= mesh")
+                else:
+                    ctx.fail(prod_fn, stmt, f"{role} search bound is not rounded inward: mask 'v {rel} bound' with correction '{sign} mesh' (expected {want}); candidates projected onto it can leave the hard box",
+                             construct=f"{role} search bound rounding ({rel},{sign})")
+    ctx.extra["search_bound_implementations"] = sorted(impls)
 
     from .common import helper_purity
 
@@ -466,10 +463,17 @@ def _inward_sites(prog, fn):
     ``v[v < b] = v[v < b] + t`` patterns."""
     out = []
     for t, v, s, k in iter_stores(fn.node):
-        if not (isinstance(t, ast.Subscript) and isinstance(t.value, ast.Name) and isinstance(t.slice, ast.Compare) and len(t.slice.ops) == 1):
+        if not (isinstance(t, ast.Subscript) and isinstance(t.value, ast.Name)):
+            continue
+        cmp_ = t.slice
+        if isinstance(cmp_, ast.Name):
+            # mask kept in a local: ``below = v < b; v[below] = v[below] + t``
+            md = reaching_assignments(prog, fn, cmp_.id, s)
+            if len(md) == 1 and isinstance(md[0], ast.Compare):
+                cmp_ = md[0]
+        if not (isinstance(cmp_, ast.Compare) and len(cmp_.ops) == 1):
             continue
         var = t.value.id
-        cmp_ = t.slice
         l, r = cmp_.left, cmp_.comparators[0]
         op = type(cmp_.ops[0])
         if canon(l) != var:
